@@ -88,8 +88,7 @@ fn main() {
                             let mut lines = Vec::new();
                             let mut i = from + wi as u64;
                             while i < from + count {
-                                let mut rng = rng::Rng::new(driver::case_seed(seed, p.id(), i));
-                                let case = p.generate(&mut rng, tier);
+                                let case = driver::generate_case(p.as_ref(), seed, i, tier);
                                 let mut ctx = Ctx::new(tier, tmp.clone());
                                 let v = driver::full_check(p.as_ref(), &case, &mut ctx).unwrap_or(None);
                                 lines.push((
@@ -127,8 +126,7 @@ fn main() {
             match props::by_id(&id) {
                 Some(p) => {
                     let seed = driver::seed_from_env();
-                    let mut rng = rng::Rng::new(driver::case_seed(seed, p.id(), index));
-                    let case = p.generate(&mut rng, Tier::Quick);
+                    let case = driver::generate_case(p.as_ref(), seed, index, Tier::Quick);
                     println!("{}", serde_json::to_string_pretty(&case).unwrap());
                     0
                 }
